@@ -137,6 +137,57 @@ def named_locals(trace, function_suffix):
     return out
 
 
+def reduce_trace_json(path, fn_suffix, max_step_bytes=1 << 20):
+    """CBMC's --json-ui output with every counterexample trace cut down to the steps `concrete_values` and
+    `named_locals` read. The file is pretty-printed one key per line, so it is processed line by line, never loaded:
+    a trace array opens with `<indent>"trace": [`, its steps are the objects one level deeper."""
+    out = []
+    in_trace = False
+    ind = None
+    step = None
+    step_bytes = 0
+    kept = 0
+    first = True
+    with open(path, errors="replace") as f:
+        for line in f:
+            if not in_trace:
+                st = line.lstrip(" ")
+                if st.startswith('"trace": ['):
+                    if st.rstrip().endswith("]") or st.rstrip().endswith("],"):
+                        out.append(line)
+                        continue
+                    in_trace = True
+                    ind = len(line) - len(st)
+                    first = True
+                    out.append(line)
+                else:
+                    out.append(line)
+                continue
+            n = len(line) - len(line.lstrip(" "))
+            if step is None:
+                if n == ind and line.strip() in ("]", "],"):
+                    in_trace = False
+                    out.append(line)
+                elif n == ind + 2 and line.strip() == "{":
+                    step = [line]
+                    step_bytes = len(line)
+                continue
+            if n == ind + 2 and line.strip() in ("}", "},"):
+                if step_bytes <= max_step_bytes:
+                    txt = "".join(step)
+                    if '"assignment"' in txt and ("kani::any_raw_" in txt or fn_suffix in txt):
+                        out.append(("" if first else ",\n") + txt + " " * (ind + 2) + "}")
+                        first = False
+                        kept += 1
+                step = None
+                continue
+            step_bytes += len(line)
+            if step_bytes <= max_step_bytes:
+                step.append(line)
+    # a kept step is emitted without its trailing comma; separators are added above
+    return "".join(out)
+
+
 def run_harness(h, workdir, timeout=600, trace=False):
     """Run one harness through the kani-driver pipeline. Returns a result dict."""
     os.makedirs(workdir, exist_ok=True)
@@ -201,8 +252,12 @@ def run_harness(h, workdir, timeout=600, trace=False):
         secs = time.time() - t1
         size = os.path.getsize(tf) if os.path.exists(tf) else 0
         if size > int(os.environ.get("VERIF_MAX_TRACE_MB", "400")) << 20:
-            so = ""
-            se += "\ntrace output too large to load (%d MB)" % (size >> 20)
+            # read it as a stream and keep only the steps the replay needs (kani::any() results, harness locals)
+            try:
+                so = reduce_trace_json(tf, name.rsplit("::", 1)[-1])
+            except Exception as ex:  # noqa
+                so = ""
+                se += "\ntrace output too large to load (%d MB) and not reducible: %r" % (size >> 20, ex)
         else:
             so = open(tf, errors="replace").read() if size else ""
         try:
